@@ -91,7 +91,7 @@ pub fn model_of(scenario: &Scenario) -> Model {
             after_close.insert(op_index, alt);
         }
         match op {
-            Op::Open { path, text } | Op::Change { path, text } => {
+            Op::Open { path, text } | Op::Change { path, text } | Op::Change2 { path, text, .. } => {
                 cur.open.insert(path.clone(), text.clone());
                 cur.seen_disk = disk.clone();
                 cur.root = Some(path.clone());
@@ -121,7 +121,7 @@ pub fn model_of(scenario: &Scenario) -> Model {
     let mut k = 0;
     for op in &scenario.ops {
         match op {
-            Op::Open { .. } | Op::Change { .. } => {
+            Op::Open { .. } | Op::Change { .. } | Op::Change2 { .. } => {
                 k += 1;
                 pending.push(k);
             }
@@ -231,7 +231,7 @@ pub fn check_c08(scenario: &Scenario, res: &ExecResult) -> C08Verdict {
             // every notification processed: the closing outline shows the last text sent
             if let Some((id, path)) = &res.history.closing_symbol {
                 let last_text = scenario.ops.iter().rev().find_map(|op| match op {
-                    Op::Open { path: p, text } | Op::Change { path: p, text } if p == path => Some(text.clone()),
+                    Op::Open { path: p, text } | Op::Change { path: p, text } | Op::Change2 { path: p, text, .. } if p == path => Some(text.clone()),
                     _ => None,
                 });
                 if let (Some(text), Some(r)) = (last_text, resp.get(id).and_then(|r| r.first())) {
